@@ -308,6 +308,36 @@ def check(ctx):
                                 elif ok and stored != (lo_v, hi_v):
                                     C.issue('constructor-did-not-store', 'oracle', rp, stored=stored)
                             C.case(key=('ctor-pair', s_['cls'], lo_attr, hi_attr, lo_v, hi_v, order), nontrivial=True, kind='ctor-pair')
+        # size guards follow the *current* companion attribute: change it first, then try sizes around the new value
+        for s_ in tables['setters']:
+            for g in s_['guards']:
+                if g['ddesc'] and g['ddesc'][0] == 'sameSize':
+                    comp_attr = g['ddesc'][1]
+                    for new_n in (1, 3, 4):
+                        for order in ((s_['attr'],), ('ub', 'lb'), ('lb', 'ub')):
+                            obj = make_obj(L, s_['cls'])
+                            if obj is None or not hasattr(obj, comp_attr):
+                                continue
+                            try:
+                                setattr(obj, comp_attr, new_n)
+                            except Exception:
+                                continue
+                            for attr_ in order:
+                                for size in (new_n - 1, new_n, new_n + 1):
+                                    if size < 1:
+                                        continue
+                                    rp = dict(how='size-after-companion-change', cls=s_['cls'], attr=attr_, companion=comp_attr, new_value=new_n, size=size)
+                                    try:
+                                        setattr(obj, attr_, np.zeros(size))
+                                        acc = True
+                                    except e.SizeError:
+                                        acc = False
+                                    except Exception as ex:
+                                        C.issue('wrong-error-class', 'oracle', rp, outcome=type(ex).__name__, expected='SizeError')
+                                        continue
+                                    if acc != (size == new_n):
+                                        C.issue('domain-disagrees-with-setter', 'oracle', rp, accepted=acc, in_documented_domain=(size == new_n))
+                                    C.case(key=('size', s_['cls'], attr_, new_n, size, order), nontrivial=True, kind='size-guard')
         C.extra['guards_in_table'] = n_guards
         C.extra['setters'] = sum(1 for s in tables['setters'] if s['guards'])
     finally:
